@@ -746,6 +746,23 @@ func BlockedThreads() []string {
 	return out
 }
 
+// ThreadPoints returns, per live thread (name -> scheduling points passed so far), a figure that grows only while
+// the thread makes progress: two samples some virtual time apart tell an active loop from a thread that is
+// blocked for good.
+func ThreadPoints() map[string]int {
+	s := cur
+	out := map[string]int{}
+	if s == nil {
+		return out
+	}
+	for _, t := range s.threads {
+		if !t.done && t != s.running {
+			out[fmt.Sprintf("%s~%d", t.name, t.id)] = t.points
+		}
+	}
+	return out
+}
+
 // LiveThreads lists every controlled thread that has not finished (running, runnable, sleeping or blocked).
 func LiveThreads() []string {
 	s := cur
